@@ -450,6 +450,8 @@ func runC17(r *simkit.Run) {
 		if timeout > 0 {
 			ch = append(ch, simkit.Choice{Name: "advance:timeout", W: 2, Fire: func() { time.Sleep(timeout) }})
 			ch = append(ch, simkit.Choice{Name: "advance:half", W: 1, Fire: func() { time.Sleep(timeout / 2) }})
+			// (a quarter: instants between "timeout after the oldest pending item" and "timeout after a later arrival")
+			ch = append(ch, simkit.Choice{Name: "advance:quarter", W: 1, Fire: func() { time.Sleep(timeout / 4) }})
 		}
 		if !s.shutFired {
 			ch = append(ch, simkit.Choice{Name: "shutdown", W: 1, Fire: func() {
@@ -617,5 +619,5 @@ var HarnessC17 = simkit.Harness{
 	Prop: "C17", Name: "svc/c17", Run: runC17, StepTimeout: 20e9, HashInsensitive: true,
 	Real: []string{"batchprocessor factory-built processors for logs, traces and metrics (shards, timer, split*, metadata sharding, cardinality limit)", "client.Info metadata propagation"},
 	Stub: []string{"downstream sink following a tape-drawn plan per call (ok / error / park until released)", "producers with client metadata from a small alphabet"},
-	Rule: "one run = one tape-drawn configuration accepted by Validate() (timeout, send_batch_size, send_batch_max_size, metadata_keys, cardinality limit), generated payloads with unique item ids from 1-4 concurrent producers with client metadata, a per-call sink plan, and a schedule of offer / flood (once per run, while the sink is busy: one more request than a shard's input queue holds, so the last one blocks) / caller gives up (context cancelled; the context's Err() may park once) / clock advance (timeout, half) / sink release ok|error / shutdown events, shutdown possible at any step; the conservation, identity, size, grouping and cardinality clauses are checked after every event, the flush clauses only for groups whose sink is not and has not been slow; distinct = distinct event-log hash; non-trivial = a batch with >1 item",
+	Rule: "one run = one tape-drawn configuration accepted by Validate() (timeout, send_batch_size, send_batch_max_size, metadata_keys, cardinality limit), generated payloads with unique item ids from 1-4 concurrent producers with client metadata, a per-call sink plan, and a schedule of offer / flood (once per run, while the sink is busy: one more request than a shard's input queue holds, so the last one blocks) / caller gives up (context cancelled; the context's Err() may park once) / clock advance (timeout, half, quarter) / sink release ok|error / shutdown events, shutdown possible at any step; the conservation, identity, size, grouping and cardinality clauses are checked after every event, the flush clauses only for groups whose sink is not and has not been slow; distinct = distinct event-log hash; non-trivial = a batch with >1 item",
 }
